@@ -23,7 +23,7 @@ TIERS = {
 ONLINE = {'which': ['scope'], 'foreign': ['C01', 'C04', 'C05', 'C07', 'C10', 'C12', 'C13', 'C17', 'C20'], 'n': {'quick': 40, 'thorough': 600}}
 REQUIRED_BUCKETS = ['entry:ident', 'entry:slash', 'entry:list', 'entry:none', 'entry:empty', 'entry:invalid-name', 'entry:invalid-type',
                     'entry:invalid-list', 'exit:return', 'exit:raise-Exception', 'exit:raise-BaseException', 'depth:4+',
-                    'call:direct', 'call:scoped-get', 'call:scoped-ref', 'call:probe-raises-in-scoped', 'call:probe-raises-BaseException-in-scoped', 'entry:deferred', 'entry:decorator', 'threads:shared-scoped-callable', 'threads:scheduled',
+                    'call:direct', 'call:scoped-get', 'call:scoped-get-with-suffix-of-active-scope', 'call:scoped-ref', 'call:probe-raises-in-scoped', 'call:probe-raises-BaseException-in-scoped', 'entry:deferred', 'entry:decorator', 'threads:shared-scoped-callable', 'threads:scheduled',
                     'threads:free', 'threads:child-in-scope', 'threads:scoped-binding-seen', 'policy:random', 'policy:pct', 'policy:preempt']
 ORACLE_COUNTERS = ['oracle_evals', 'scope_checks', 'thread_scope_checks']
 ASSUMPTIONS = ['interleaving granularity = LINE events inside gin/*.py']
@@ -175,8 +175,14 @@ class Runner:
       exp_scope = self.m.cur
     elif how == 'scoped-get':
       ctx.bucket('call:scoped-get')
-      gin.get_configurable('x/y/c9f')()
-      exp_scope = ['x', 'y']
+      cur = self.m.cur
+      if len(cur) >= 2 and len(cur) % 2 == 0:
+        # the explicit scope of the callable is a proper suffix of the active scope: it still REPLACES the active scope
+        exp_scope = cur[len(cur) // 2:]
+        ctx.bucket('call:scoped-get-with-suffix-of-active-scope')
+      else:
+        exp_scope = ['x', 'y']
+      gin.get_configurable('/'.join(exp_scope) + '/c9f')()
     elif how == 'scoped-ref':
       ctx.bucket('call:scoped-ref')
       with gin.config_scope(['viaref']):
